@@ -270,7 +270,8 @@ theorem C05_iterations_alike (G : Graph) (cfg : Cfg) (hg : cfg.guarded = true) (
   exact this k tr
 
 /-- **Long runs.** A program whose top level is one loop is evaluated by running the body once and repeating it
-(`runLoop`, what the driver answers for the long-running correspondence programs): the same as `run`. -/
+(`runLoop`: the events of the first iteration, `iterCount` times, in time linear in `k` — what the driver answers
+for the long-running correspondence programs): the same as `run`. -/
 theorem C05_long_run (G : Graph) (cfg : Cfg) (hg : cfg.guarded = true) (fns : List Block) (body : Block) (k d : Nat) :
     run G cfg ⟨fns, .cons (.loop k body) .nil, d⟩ = runLoop G cfg fns body k d := by
   have hs : ∀ tr, execB G cfg none (actAt G cfg fns d) (.cons (.loop k body) .nil) tr =
@@ -280,7 +281,8 @@ theorem C05_long_run (G : Graph) (cfg : Cfg) (hg : cfg.guarded = true) (fns : Li
     split
     · rename_i tr' heq; rw [execB, heq]
     · rfl
-  simp only [run, runLoop, hs, C05_iteration_independence G cfg hg fns d none k body []]
+  simp only [run, runLoop, hs, C05_iteration_independence G cfg hg fns d none k body [], repeatIter_closed,
+    List.nil_append]
 
 /-! ## what the model leaves out: resources entered on the call path are left on every exit path
 
